@@ -121,7 +121,7 @@ def execute(sc) -> Result:
         res.history_key = "|".join(map(str, (
             g["imax0"], g["jmax0"], g.get("subgrid"), hash(str(g.get("mask"))) % 9973, truth.vert(sc)["N"],
             truth.vert(sc)["Vtransform"], truth.vert(sc)["Vstretching"], sc["frames"].get("storage", "f4"),
-            sc["flow"]["kind"], len(sc["release"]["rows"])))) + "|" + abstract_history(run)
+            sc["flow"]["kind"], len(sc["release"]["rows"])))) + "|" + abstract_history(run, sc)
         v, foreign = crash_violation(ID, run, ANCHORS)
         if v is not None:
             res.add(v)
